@@ -75,6 +75,28 @@ fn himg<T: MaybeDynSized<Header = h::HeaderTagHeader> + ?Sized>(t: &T, rb: Strin
     format!("typ={} flags={} size={} bytes={} sov={} align={} asbytes={} rb={}", typ, flags, size, hex(bytes), sov, align_of_val(t), asb, rb)
 }
 
+fn mask_efi_padding(s: &str, n: usize) -> String {
+    let mut out = String::new();
+    for part in s.split(' ') {
+        if let Some(hx) = part.strip_prefix("bytes=") {
+            let mut b = unhex(hx);
+            for i in 0..n {
+                for k in 0..4 {
+                    let o = 16 + 40 * i + 4 + k;
+                    if o < b.len() {
+                        b[o] = 0;
+                    }
+                }
+            }
+            out.push_str(&format!("bytes={} ", hex(&b)));
+        } else {
+            out.push_str(part);
+            out.push(' ');
+        }
+    }
+    out.trim_end().to_string()
+}
+
 fn sres(r: Result<&str, StringError>) -> String {
     match r {
         Ok(s) => format!("s:{}", hex(s.as_bytes())),
@@ -257,7 +279,9 @@ pub fn ctor(name: &str, blob: &[u8]) -> String {
                 });
             }
             let t = EFIMemoryMapTag::new_from_descs(&descs);
-            img(&*t, String::new())
+            // the 4 padding bytes inside each EFIMemoryDesc are uninitialised: mask them in the printed image
+            let s = img(&*t, String::new());
+            mask_efi_padding(&s, descs.len())
         }
         "efibs" => {
             let t = EFIBootServicesNotExitedTag::new();
@@ -348,4 +372,121 @@ pub fn ctor_case(t: &[&str]) -> String {
     let blob = unhex(t.get(2).copied().unwrap_or("-"));
     let name = t[1].to_string();
     guarded(move || ctor(&name, &blob)).unwrap_or_else(|_| "panic".into())
+}
+
+// ------------------------------------------------------------------------------------------------ C16
+
+use crate::alloc_track;
+use multiboot2_common::test_utils::DummyTestHeader;
+use multiboot2_common::{clone_dyn, new_boxed, Header};
+
+/// describe the allocation events that concern the object at `obj`
+fn alloc_summary(ev: &[(char, usize, usize, usize)], obj: usize) -> String {
+    let a: Vec<String> = ev.iter().filter(|e| e.0 == 'a' && e.1 == obj).map(|e| format!("{}/{}", e.2, e.3)).collect();
+    let d: Vec<String> = ev.iter().filter(|e| e.0 == 'd' && e.1 == obj).map(|e| format!("{}/{}", e.2, e.3)).collect();
+    format!("alloc={} dealloc={}", a.join("+"), d.join("+"))
+}
+
+fn boxed_one<H: Header>(hdr: H, slices: &[&[u8]], size_of: impl Fn(&H) -> usize) -> String {
+    alloc_track::start();
+    let b = new_boxed::<DynSizedStructure<H>>(hdr, slices);
+    let p = &*b as *const DynSizedStructure<H> as *const u8 as usize;
+    let size = size_of(b.header());
+    let sov = size_of_val(&*b);
+    let bytes = unsafe { std::slice::from_raw_parts(p as *const u8, size.min(sov)) }.to_vec();
+    let pl = b.payload().len();
+    drop(b);
+    let ev = alloc_track::stop();
+    format!("size={} bytes={} pl={} sov={} addr8={} {}", size, hex(&bytes), pl, sov, p % 8, alloc_summary(&ev, p))
+}
+
+/// BOXED <kind> <hex header image> <hex,hex,... content slices>
+pub fn boxed_case(t: &[&str]) -> String {
+    let hb = unhex(t[2]);
+    let parts: Vec<Vec<u8>> = t.get(3).copied().unwrap_or("").split(',').filter(|s| !s.is_empty()).map(unhex).collect();
+    let refs: Vec<&[u8]> = parts.iter().map(|v| v.as_slice()).collect();
+    let kind = t[1].to_string();
+    guarded(move || match kind.as_str() {
+        "tag" => {
+            let typ = u32::from_le_bytes(hb[0..4].try_into().unwrap());
+            let size = u32::from_le_bytes(hb[4..8].try_into().unwrap());
+            boxed_one(TagHeader::new(TagTypeId::new(typ), size), &refs, |h| h.size as usize)
+        }
+        "dummy" => {
+            let typ = u32::from_le_bytes(hb[0..4].try_into().unwrap());
+            let size = u32::from_le_bytes(hb[4..8].try_into().unwrap());
+            boxed_one(DummyTestHeader::new(typ, size), &refs, |h| h.size() as usize)
+        }
+        "ht" => {
+            let fl = u16::from_le_bytes(hb[2..4].try_into().unwrap());
+            let size = u32::from_le_bytes(hb[4..8].try_into().unwrap());
+            // the type is an enum: only its declared values can be constructed
+            let ty = match u16::from_le_bytes(hb[0..2].try_into().unwrap()) % 11 {
+                0 => h::HeaderTagType::End,
+                1 => h::HeaderTagType::InformationRequest,
+                2 => h::HeaderTagType::Address,
+                3 => h::HeaderTagType::EntryAddress,
+                4 => h::HeaderTagType::ConsoleFlags,
+                5 => h::HeaderTagType::Framebuffer,
+                6 => h::HeaderTagType::ModuleAlign,
+                7 => h::HeaderTagType::EfiBS,
+                8 => h::HeaderTagType::EntryAddressEFI32,
+                9 => h::HeaderTagType::EntryAddressEFI64,
+                _ => h::HeaderTagType::Relocatable,
+            };
+            boxed_one(h::HeaderTagHeader::new(ty, hflag(fl), size), &refs, |x| x.size() as usize)
+        }
+        k => format!("unknown-kind:{}", k),
+    })
+    .unwrap_or_else(|_| "panic".into())
+}
+
+fn clone_one<T: MaybeDynSized<Header = TagHeader, Metadata = usize> + ?Sized>(slice: &[u8]) -> String {
+    let tag = DynSizedStructure::<TagHeader>::ref_from_slice(slice).unwrap().cast::<T>();
+    alloc_track::start();
+    let c = clone_dyn(tag);
+    let p = &*c as *const T as *const u8 as usize;
+    let size = c.header().size as usize;
+    let sov = size_of_val(&*c);
+    let bytes = unsafe { std::slice::from_raw_parts(p as *const u8, size.min(sov)) }.to_vec();
+    drop(c);
+    let ev = alloc_track::stop();
+    format!("size={} bytes={} sov={} addr8={} {}", size, hex(&bytes), sov, p % 8, alloc_summary(&ev, p))
+}
+
+fn clone_h<T: MaybeDynSized<Header = h::HeaderTagHeader, Metadata = usize> + ?Sized>(slice: &[u8]) -> String {
+    let tag = DynSizedStructure::<h::HeaderTagHeader>::ref_from_slice(slice).unwrap().cast::<T>();
+    alloc_track::start();
+    let c = clone_dyn(tag);
+    let p = &*c as *const T as *const u8 as usize;
+    let size = c.header().size() as usize;
+    let sov = size_of_val(&*c);
+    let bytes = unsafe { std::slice::from_raw_parts(p as *const u8, size.min(sov)) }.to_vec();
+    drop(c);
+    let ev = alloc_track::stop();
+    format!("size={} bytes={} sov={} addr8={} {}", size, hex(&bytes), sov, p % 8, alloc_summary(&ev, p))
+}
+
+/// CLONE <kind> <hex tag image (padded to 8)>
+pub fn clone_case(ctx: &crate::Ctx, t: &[&str]) -> String {
+    let bytes = unhex(t[2]);
+    let p = ctx.arena.place_end(&bytes, 0);
+    let slice = unsafe { std::slice::from_raw_parts(p as *const u8, bytes.len()) };
+    let kind = t[1].to_string();
+    guarded(move || match kind.as_str() {
+        "generic" => clone_one::<DynSizedStructure<TagHeader>>(slice),
+        "cmdline" => clone_one::<CommandLineTag>(slice),
+        "loader" => clone_one::<BootLoaderNameTag>(slice),
+        "module" => clone_one::<ModuleTag>(slice),
+        "mmap" => clone_one::<MemoryMapTag>(slice),
+        "efimmap" => clone_one::<EFIMemoryMapTag>(slice),
+        "elf" => clone_one::<ElfSectionsTag>(slice),
+        "smbios" => clone_one::<SmbiosTag>(slice),
+        "fb" => clone_one::<FramebufferTag>(slice),
+        "network" => clone_one::<NetworkTag>(slice),
+        "hgeneric" => clone_h::<DynSizedStructure<h::HeaderTagHeader>>(slice),
+        "inforeq" => clone_h::<h::InformationRequestHeaderTag>(slice),
+        k => format!("unknown-kind:{}", k),
+    })
+    .unwrap_or_else(|_| "panic".into())
 }
